@@ -100,4 +100,38 @@ theorem traceM_eq (m : ℕ) (X : ℕ → ℕ → K) : traceM m X = (Matrix.of fu
   rw [sumRange_eq]
   rfl
 
+/-! ### product chains (`FormulaProduct`) -/
+
+/-- the index-function matrix restricted to `Fin m` -/
+def toM (m : ℕ) (X : ℕ → ℕ → K) : Matrix (Fin m) (Fin m) K := Matrix.of fun i j : Fin m => X i j
+
+omit [StarRing K] in
+theorem toM_mulM (m : ℕ) (A B : ℕ → ℕ → K) : toM m (mulM m A B) = toM m A * toM m B := by
+  ext i j
+  simp only [toM, mulM, sumRange_eq, Matrix.mul_apply, Matrix.of_apply]
+
+theorem toM_rotate (m : ℕ) (U X : ℕ → ℕ → K) : toM m (rotate star m U X) = cj (toM m U) (toM m U) (toM m X) := by
+  ext a d
+  exact rotate_eq m U X a d
+
+/-- `FormulaProduct.nn` on matrices: `res = M₀; for M in rest: res = res * M` -/
+def productChain {p : ℕ} (M0 : Matrix (Fin p) (Fin p) K) (rest : List (Matrix (Fin p) (Fin p) K)) :
+    Matrix (Fin p) (Fin p) K := rest.foldl (· * ·) M0
+
+omit [StarRing K] in
+theorem toM_chainM (m : ℕ) (M0 : ℕ → ℕ → K) (rest : List (ℕ → ℕ → K)) :
+    toM m (chainM m M0 rest) = productChain (toM m M0) (rest.map (toM m)) := by
+  unfold chainM productChain
+  induction rest generalizing M0 with
+  | nil => rfl
+  | cons X Xs ih => rw [List.foldl_cons, List.map_cons, List.foldl_cons, ih, toM_mulM]
+
+theorem productChain_cj {p : ℕ} (U : Matrix (Fin p) (Fin p) K) (hU : U * Uᴴ = 1)
+    (M0 : Matrix (Fin p) (Fin p) K) (rest : List (Matrix (Fin p) (Fin p) K)) :
+    productChain (cj U U M0) (rest.map (cj U U)) = cj U U (productChain M0 rest) := by
+  unfold productChain
+  induction rest generalizing M0 with
+  | nil => rfl
+  | cons X Xs ih => rw [List.map_cons, List.foldl_cons, List.foldl_cons, cj_mul U U U hU, ih]
+
 end WB.C04
